@@ -160,6 +160,20 @@ func runC20Flags(r *Report, rng *rand.Rand, thorough bool, bin, dir, specPath st
 			"flag":          {"-package", "api", "-generate", "types,chi-server", "-templates", tdir, specPath},
 			"old-style-key": {"-old-config-style", "-config", oldCfg, specPath},
 		}
+		// the same overrides written INTO a new-style file (output-options.user-templates), no flag; and the configuration
+		// printed by -output-config for the flag run, fed back
+		inline, _ := yaml.Marshal(map[string]any{"package": "api", "generate": map[string]any{"models": true, "chi-server": true},
+			"output-options": map[string]any{"user-templates": want.OutputOptions.UserTemplates}})
+		newCfg := filepath.Join(dir, "inlinetemplates.yaml")
+		must(os.WriteFile(newCfg, inline, 0o644))
+		runs["new-style-file-key"] = []string{"-config", newCfg, specPath}
+		if printed := runCLI(bin, dir, "-package", "api", "-generate", "types,chi-server", "-templates", tdir, "-output-config", specPath); printed.exit == 0 {
+			backCfg := filepath.Join(dir, "printedtemplates.yaml")
+			must(os.WriteFile(backCfg, []byte(printed.stdout), 0o644))
+			runs["printed-configuration-fed-back"] = []string{"-config", backCfg, specPath}
+		} else {
+			r.Violate("templates_directory_differs_from_library", fmt.Sprintf("-output-config with -templates: exit %d", printed.exit), nil)
+		}
 		for how, args := range runs {
 			r.Count("templates-directory/"+how, true)
 			r.Dist["family=templates-directory"]++
